@@ -193,6 +193,9 @@ def build(spec, seed, weights="float", dtype=torch.float64):
 				v = torch.randint(-2, 3, p.shape, generator=g).to(dtype)
 				if p.dim() == 1:
 					v = v + 0.5       # biases: keep pre-activations off 0
+			elif weights == "big":
+				# large weights: saturating activations deep in their tails
+				v = torch.randn(p.shape, generator=g, dtype=dtype) * 4.0
 			else:
 				v = torch.randn(p.shape, generator=g, dtype=dtype) * 0.8
 			p.copy_(v)
